@@ -401,7 +401,36 @@ impl Primitive {
                 return Ok(matches!(x, Primitive::Optional(None)))
             }
             (P::Vector(v1), P::Vector(v2)) => {
-                return Ok(v1.0.borrow()[..].eq(v2.0.borrow().as_slice()))
+                /// a present optional handed out by a built-in is boxed; as a list
+                /// element it equals the plain value it holds
+                fn unboxed(primitive: &Primitive) -> &Primitive {
+                    match primitive {
+                        Primitive::Optional(Some(inner)) => unboxed(inner.as_ref()),
+                        other => other,
+                    }
+                }
+
+                let (v1, v2) = (v1.0.borrow(), v2.0.borrow());
+
+                if v1.len() != v2.len() {
+                    return Ok(false);
+                }
+
+                for (x, y) in v1.iter().zip(v2.iter()) {
+                    let (x, y) = (unboxed(x), unboxed(y));
+
+                    let same = if let (P::Vector(..), P::Vector(..)) = (x, y) {
+                        x.equals(y)?
+                    } else {
+                        x == y
+                    };
+
+                    if !same {
+                        return Ok(false);
+                    }
+                }
+
+                return Ok(true);
             }
             (P::Optional(maybe), yes) | (yes, P::Optional(maybe)) => {
                 if let Some(maybe_unwrapped) = maybe {
